@@ -200,11 +200,14 @@ class QModel:
         if self.stats_adt is None:
             rep.anchor_lost('Q0', 'worker statistics struct')
             return
+        # which atomic each public getter reads; a getter that is not a plain load (a derived figure) leaves its counter
+        # unknown - only the rules that talk about that counter fail closed on it (need_counters)
+        self.missing_counters = []
         for name in ('submitted', 'drained', 'panics'):
             fld = self._getter_field(name)
             if fld is None:
-                rep.anchor_lost('Q0', 'counter behind QueuingMetricSink::%s()' % name)
-                return
+                self.missing_counters.append(name)
+                continue
             self.counters[name] = fld
         for b in (self.run, self.stop, self.submit, self.spawn, self.build, self.spawn_closure, self.task_closure,
                   self.sentinel_drop):
@@ -286,6 +289,12 @@ class QModel:
         return t[0] == 'field' and t[2] == self.f_stats
 
     # ---- classification helpers on (normalised) call terms
+    def need_counters(self, rep, rid, names_):
+        miss = [n_ for n_ in names_ if n_ not in self.counters]
+        for n_ in miss:
+            rep.anchor_lost(rid, 'counter behind QueuingMetricSink::%s() (the getter is not a plain load of one atomic)' % n_)
+        return not miss
+
     def is_counter_op(self, ct, counter, op):
         if not term_callee_is(ct, 'core::sync::atomic::Atomic::' + op):
             return False
